@@ -7,7 +7,10 @@ from .C08 import table
 
 LEVEL = "proof"
 THEOREMS = ['C15_projection','C15_maxUncertainty','C15_uncertaintyMaximized','C15_discount','C15_fuse','C15_mbr','C15_deduceOf','C15_deduce','C15_deduceWith','C15_inverse','C15_abduceWith','C15_abduce','C15_product2Raw','C15_product2U','C15_product2L','C15_product3Raw','C15_mergeCond2_ok','C15_mergeCond2_labelled']
-RULE = ("fuse, discount, proj, umax, mbr, deduce_with, inverse, abduce_with, prod2, prod3, merge on well-formed dyadic operands; every "
+RULE = ("fuse, discount, proj, umax, mbr, deduce_with, inverse, abduce_with, prod2, prod3, merge on well-formed dyadic operands (prod2 / "
+        "prod3 also on the SMALL-BASE-RATE stream of C06: one base-rate entry 2^-k under a heavy mass, uncertainties 2^-j, other factors "
+        "(nearly) dogmatic, 60% steered to operands on which a cancelling evaluation of the joint uncertainty is visibly wrong, and the "
+        "recorded f64 witness of repair abca806 under all relabellings); every "
         "case is re-run with the value order of each variable permuted consistently in all operands, for ALL permutations of domains of "
         "size 2..4 in thorough (a sample of 6 per case in quick), independently per variable; asymmetric shapes (|X| != |Y|, 2x3, 3x2) "
         "are mandatory in the mix; the implementation's outputs are un-permuted and compared (cross-case); families A/M/D/N; f32+f64")
@@ -147,6 +150,38 @@ def build(rng, fmt, tier):
     return out
 
 
+def product_group(op, fmt, fam, ns, ws, combos):
+    gid = CROSS_GROUPS[0]; CROSS_GROUPS[0] += 1
+    out = []
+    for ps in combos:
+        sc = []
+        for w, n, p in zip(ws, ns, ps):
+            sc += pO(w, n, p)
+        out.append((G.line(op, fmt, fam + ".o", ns, sc), ("perm", gid, "J", (ns, ps))))
+    return out
+
+
+def build_small(rng, fmt, tier):
+    """products with one small joint base rate (G.small_rate_factors), re-run under relabellings of every factor's domain: before
+    repair abca806 the noisiest cell won the min, and WHICH cell is noisiest depends on the order of the values"""
+    arity = rng.choice([2, 2, 3])
+    ns, ws = G.small_rate_factors(rng, fmt, arity, hazard=rng.random() < 0.6)
+    combos = list(itertools.product(*[perm_choices(rng, n, tier) for n in ns]))
+    if tier != "thorough":
+        combos = combos[:1] + rng.sample(combos[1:], min(5, len(combos) - 1))
+    return product_group("prod2" if arity == 2 else "prod3", fmt, rng.choice(["M", "D", "N"]), ns, ws, combos)
+
+
+def witness_groups(fmt):
+    out = []
+    for wfmt, ns, ws, _ in G.PRODUCT_WITNESSES:
+        if wfmt == fmt:
+            combos = list(itertools.product(*[list(itertools.permutations(range(n))) for n in ns]))
+            for fam in ("M", "D"):
+                out += product_group("prod2", fmt, fam, ns, ws, combos)
+    return out
+
+
 def inv(p):
     q = [0] * len(p)
     for i, v in enumerate(p):
@@ -194,6 +229,9 @@ def cases(rng, tier):
     out = []
     for fmt in ("f64", "f32"):
         N = 250 if tier == "quick" else 1500
+        out += witness_groups(fmt)
+        for _ in range(N // 5):
+            out += build_small(rng, fmt, tier)
         for _ in range(N):
             out += build(rng, fmt, tier)
     return out
